@@ -106,6 +106,9 @@ def Txn1.created (t : Txn1) : List (Kind × Id) :=
 /-- sum of the claim outputs a v1 transaction creates, evaluated in the state before it -/
 def Txn1.claims (ms : Mid) (t : Txn1) : Nat := (t.sfIns.map (sfInClaim ms t.supp ms.pool)).sum
 
+/-- siafund tax collected by a v1 transaction -/
+def Txn1.taxes (L : Ledger) (t : Txn1) : Nat := (t.fcs.map (fun x => fileContractTax L x.2.payout)).sum
+
 theorem foundation1_fields (ms : Mid) (t : Txn1) :
     (foundation1 ms t).base = ms.base ∧ (foundation1 ms t).elements = ms.elements ∧ (foundation1 ms t).spends = ms.spends ∧
     (foundation1 ms t).sces = ms.sces ∧ (foundation1 ms t).sfes = ms.sfes ∧ (foundation1 ms t).fces = ms.fces ∧
@@ -134,7 +137,8 @@ theorem v1txn_conserves {T} {ms ms' : Mid} {t : Txn1} {pid : Id} {mw : Nat} {R :
     (hv : validateTransaction ms t pid mw = .ok ()) (ha : applyTransaction ms t = .ok ms') :
     Inv T ms' ∧ Fresh T ms' R ∧ ms'.base = ms.base ∧
     Phi ms' + t.fees.sum = Phi ms + t.claims ms ∧ sfTot ms' = sfTot ms ∧ ms.pool ≤ ms'.pool ∧
-    (CsOk ms → CsOk ms' ∧ Psi ms' + 10000 * t.claims ms ≤ Psi ms + (ms'.pool - ms.pool) * sfTot ms) := by
+    (CsOk ms → CsOk ms' ∧ Psi ms' + 10000 * t.claims ms ≤ Psi ms + (ms'.pool - ms.pool) * sfTot ms) ∧
+    ms'.pool = ms.pool + t.taxes ms.base := by
   obtain ⟨hv1, hv2, hv3, hv4⟩ := validateTransaction_ok hv
   obtain ⟨hsc, hbal⟩ := validateSiacoins1_ok hv1
   obtain ⟨hsf, hsfbal⟩ := validateSiafunds1_ok hv2
@@ -301,7 +305,7 @@ theorem v1txn_conserves {T} {ms ms' : Mid} {t : Txn1} {pid : Id} {mw : Nat} {R :
     have h3 : (t.sfIns.map (sfInVal ms t.supp)).sum = (t.sfOuts.map (·.2.1)).sum := h1.symm.trans (hsfbal.trans h2)
     clear hsfbal hbal h1 h2 hin hnw hsfb
     omega
-  refine ⟨r7.inv.scalars f1 f2 f3 f4 f5 f6 f7, ?_, f1.trans hb7, ?_, ?_, ?_, ?_⟩
+  refine ⟨r7.inv.scalars f1 f2 f3 f4 f5 f6 f7, ?_, f1.trans hb7, ?_, ?_, ?_, ?_, ?_⟩
   · exact F7.agree (agree_scalars f1 f2 f3 f4 f5 f6 f7 (fun _ => False)) (fun _ _ h => h)
   · rw [Phi_scalars f1 f4 f6 f7 f8]
     unfold Txn1.claims
@@ -347,5 +351,7 @@ theorem v1txn_conserves {T} {ms ms' : Mid} {t : Txn1} {pid : Id} {mw : Nat} {R :
     simp only [Nat.zero_mul, Nat.add_zero] at q2 ⊢
     clear hv hv1 hv2 hv3 hv4 a1 a2 a3 a4 a5 a6 a7 hF F1 F2 F3 F4 F5 F6 F7 e3W e4W hbal hsfbal
     omega
+  · unfold Txn1.taxes
+    rw [f8, e7p, e6p, e5p, e4p, e3p, e2p, e1p, hb4]
 
 end Sia.Ledger
